@@ -104,6 +104,7 @@ type Specs struct {
 	Lemmas    []*Lemma
 	GlobalInv []*Clause
 	Axioms    []*Clause
+	Universal []string // properties to which every function under contract contributes its unlabelled obligations
 	Files     []string
 	P         *Program
 }
@@ -662,6 +663,10 @@ func (S *Specs) parseLines(lines []rawLine, ctx *PkgCtx, pkgShort string, extern
 			if c := mkClause(l, "axiom", label, rest); c != nil {
 				S.Axioms = append(S.Axioms, c)
 			}
+		case "safety-property":
+			// `safety-property Cxx`: the unlabelled obligations (no panic, no overflow, callee preconditions, loop
+			// invariants, frames) of every function under contract count for property Cxx
+			S.Universal = append(S.Universal, strings.Fields(rest)...)
 		case "global":
 			r := strings.TrimSpace(strings.TrimPrefix(rest, "invariant"))
 			if c := mkClause(l, "globalinv", label, r); c != nil {
@@ -827,7 +832,7 @@ func resolveTypeExpr(ctx *PkgCtx, e ast.Expr) (types.Type, error) {
 
 var directiveWords = map[string]bool{"import": true, "package": true, "func": true, "extern": true, "verify": true, "props": true, "trusted": true,
 	"pure": true, "ghost": true, "opaque": true, "nooverflow": true, "dead-return": true, "calls-back": true, "os-calls-only": true, "interference": true, "requires": true, "ensures": true, "ensures-local": true, "ensures-ghost": true, "modifies": true,
-	"loop": true, "callback": true, "at": true, "lemma": true, "global": true, "axiom": true}
+	"loop": true, "callback": true, "at": true, "lemma": true, "global": true, "axiom": true, "safety-property": true}
 
 func startsWithDirective(body string) bool {
 	t := strings.TrimSpace(body)
